@@ -25,6 +25,15 @@ def mget (c : Cbor) (k : Cbor) : Option Cbor :=
   | .map kvs => (kvs.find? fun e => e.1 == k).map (·.2)
   | _ => none
 
+/-- a STRUCT FIELD of a serde-derived structure: ciborium's `deserialize_identifier` accepts the field
+name as a text string or as a byte string with the same bytes (keys of string-keyed maps — namespace
+names — are text only and go through `mget`) -/
+def fget (c : Cbor) (name : String) : Option Cbor :=
+  let nb : Bytes := name.toList.map fun ch => UInt8.ofNat ch.toNat
+  match c with
+  | .map kvs => (kvs.find? fun e => e.1 == .text nb || e.1 == .bytes nb).map (·.2)
+  | _ => none
+
 /-- Rust's `str::from_utf8` acceptance: well-formed UTF-8 without overlong forms, surrogates or code points above U+10FFFF -/
 def validUtf8 : Bytes → Bool
   | [] => true
@@ -100,8 +109,8 @@ def coseArr : Cbor → Option (List Cbor)
   | _ => none
 
 def firstMdl (resp : Cbor) : Option Cbor :=
-  match mget resp (tx "documents") with
-  | some (.array docs) => docs.find? fun d => mget d (tx "docType") == some (tx "org.iso.18013.5.1.mDL")
+  match fget resp "documents" with
+  | some (.array docs) => docs.find? fun d => fget d "docType" == some (tx "org.iso.18013.5.1.mDL")
   | _ => none
 
 def msoOf (payload : Bytes) : Option Cbor :=
@@ -115,22 +124,28 @@ def hashWith (alg : Cbor) (b : Bytes) : Bytes :=
 /-- every disclosed item of every namespace hashes (as the tag-24 item it was sent as) to the MSO's
 valueDigests entry for its namespace and digestID -/
 def digestsMatch (doc mso : Cbor) : Bool :=
-  let alg := (mget mso (tx "digestAlgorithm")).getD (.simple 22)
-  match mget doc (tx "issuerSigned") with
+  let alg := (fget mso "digestAlgorithm").getD (.simple 22)
+  match fget doc "issuerSigned" with
   | some is =>
-    match mget is (tx "nameSpaces") with
+    match fget is "nameSpaces" with
     | some (.map nss) =>
       nss.all fun (nsk, items) =>
-        let vd := (mget mso (tx "valueDigests")).bind fun v => mget v nsk
+        let vd := match nsk with
+          | .text _ => (fget mso "valueDigests").bind fun v => mget v nsk
+          | _ => none
         match items with
         | .array its => its.all fun it =>
           match it with
           | .tag 24 (.bytes b) =>
             (match decodeValue b with
-             | some iv => (match mget iv (tx "digestID"), vd with
-               | some id, some vdm => (match mget vdm id with
-                 | some (.bytes want) => want == hashWith alg (Cbor.enc it)
-                 | _ => false)
+             | some iv => (match fget iv "digestID", vd with
+               | some id, some vdm =>
+                 (match id with
+                  | .uint _ | .nint _ =>
+                    (match mget vdm id with
+                     | some (.bytes want) => want == hashWith alg (Cbor.enc it)
+                     | _ => false)
+                  | _ => false)
                | _, _ => false)
              | none => false)
           | _ => false
@@ -151,7 +166,7 @@ def compute (resp transcript : Cbor) (ikey : Option (Nat × Nat)) : Out :=
   match firstMdl resp with
   | none => ⟨false, false, false, false, "okp", false⟩
   | some doc =>
-    let ia := ((mget doc (tx "issuerSigned")).bind fun i => mget i (tx "issuerAuth")).bind coseArr
+    let ia := ((fget doc "issuerSigned").bind fun i => fget i "issuerAuth").bind coseArr
     let prot := match ia with | some (.bytes p :: _) => p | _ => []
     let payload : Option Bytes := match ia with | some [_, _, .bytes p, _] => some p | _ => none
     let isig := match ia with | some [_, _, _, .bytes s] => s | _ => []
@@ -160,11 +175,11 @@ def compute (resp transcript : Cbor) (ikey : Option (Nat × Nat)) : Out :=
       | none => false
     let mso := payload.bind msoOf
     let dig := match mso with | some m => digestsMatch doc m | none => false
-    let dt := match mso.bind (fun m => mget m (tx "docType")), mget doc (tx "docType") with
+    let dt := match mso.bind (fun m => fget m "docType"), fget doc "docType" with
       | some a, some b => a == b
       | _, _ => false
     -- device key from the MSO
-    let dk := (mso.bind fun m => mget m (tx "deviceKeyInfo")).bind fun k => mget k (tx "deviceKey")
+    let dk := (mso.bind fun m => fget m "deviceKeyInfo").bind fun k => fget k "deviceKey"
     let (dkey, dvk) : String × Option (Nat × Nat) := match dk with
       | some (.map m) =>
         (match mget (.map m) (.uint 1), mget (.map m) (.nint 1), mget (.map m) (.nint 2) with
@@ -176,8 +191,8 @@ def compute (resp transcript : Cbor) (ikey : Option (Nat × Nat)) : Out :=
          | _, _, _ => ("okp", none))
       | _ => ("okp", none)
     -- device signature over DeviceAuthenticationBytes
-    let ds := (((mget doc (tx "deviceSigned")).bind fun s => mget s (tx "deviceAuth")).bind fun a => mget a (tx "deviceSignature")).bind coseArr
-    let dsa := match ds, dvk, mget doc (tx "docType"), (mget doc (tx "deviceSigned")).bind (fun s => mget s (tx "nameSpaces")) with
+    let ds := (((fget doc "deviceSigned").bind fun s => fget s "deviceAuth").bind fun a => fget a "deviceSignature").bind coseArr
+    let dsa := match ds, dvk, fget doc "docType", (fget doc "deviceSigned").bind (fun s => fget s "nameSpaces") with
       | some [.bytes dprot, _, _, .bytes dsig], some (x, y), some docType, some dns =>
         let da := Cbor.enc (.array [tx "DeviceAuthentication", transcript, docType, dns])
         let daBytes := Cbor.enc (.tag 24 (.bytes da))
@@ -190,7 +205,7 @@ def compute (resp transcript : Cbor) (ikey : Option (Nat × Nat)) : Out :=
 /-- the readerAuth signature of a document request verifies, under the given key, over
 Sig_structure(protected, ReaderAuthenticationBytes(transcript, ItemsRequestBytes AS RECEIVED)) -/
 def readerSigAccepts (docRequest transcript : Cbor) (key : Option (Nat × Nat)) : Bool :=
-  match mget docRequest (tx "itemsRequest"), (mget docRequest (tx "readerAuth")).bind coseArr, key with
+  match fget docRequest "itemsRequest", (fget docRequest "readerAuth").bind coseArr, key with
   | some (.tag 24 (.bytes items)), some [.bytes prot, _, _, .bytes sig], some (x, y) =>
     let ra := Cbor.enc (.array [tx "ReaderAuthentication", transcript, .tag 24 (.bytes items)])
     let raBytes := Cbor.enc (.tag 24 (.bytes ra))
